@@ -94,16 +94,37 @@ def roundtrip(ctx, rs):
     from sklearn.base import clone
     for name, cls in fl.estimators().items():
         kw, _ = fx.gen_config(rs, name, 3)
+        # the same configuration with other legal numeric types: python ints for real-valued parameters, numpy scalars
+        variants = [kw,
+                    {k: (int(max(1, round(v))) if isinstance(v, float) else v) for k, v in kw.items()},
+                    {k: (np.float64(v) if isinstance(v, float) else np.int64(v) if type(v) is int else v) for k, v in kw.items()}]
+        for vi, kv in enumerate(variants):
+            ctx.count("roundtrip_constructions")
+            inp = {"estimator": name, "params": {k: repr(v) for k, v in kv.items()}}
+            try:
+                e1 = cls(**kv)
+                g = e1.get_params(deep=False)
+            except Exception as e:
+                ctx.violation(f"{name}(**kw) raised {type(e).__name__}: {e}", "roundtrip", inp, key=f"roundtrip:init:{name}",
+                              how="cls(**kw)")
+                continue
+            # constructor -> get_params: the very objects handed in
+            for k, v in kv.items():
+                if g.get(k, None) is not v:
+                    ctx.violation(f"{name}(**kw).get_params()[{k!r}] is not the object passed to the constructor", "roundtrip", inp,
+                                  expected=repr(v), actual=repr(g.get(k)), key=f"roundtrip:init:{name}:{k}",
+                                  how="cls(**kw).get_params(deep=False)[k] is kw[k]")
+            try:
+                c1 = clone(e1)
+                if fx.fp(c1.get_params(deep=False)) != fx.fp(g):
+                    raise RuntimeError("clone has different hyperparameters")
+            except Exception as e:
+                ctx.violation(f"clone({name}(**kw)) failed: {type(e).__name__}: {e}", "roundtrip", inp, key=f"roundtrip:clone:{name}",
+                              how="sklearn.base.clone(cls(**kw))")
         est = cls(**kw)
         p0 = est.get_params(deep=False)
         ctx.count("roundtrip_classes")
         inp = {"estimator": name, "params": {k: repr(v) for k, v in kw.items()}}
-        # constructor -> get_params: the very objects handed in
-        for k, v in kw.items():
-            if p0.get(k, None) is not v:
-                ctx.violation(f"{name}(**kw).get_params()[{k!r}] is not the object passed to the constructor", "roundtrip", inp,
-                              expected=repr(v), actual=repr(p0.get(k)), key=f"roundtrip:init:{name}:{k}",
-                              how="cls(**kw).get_params(deep=False)[k] is kw[k]")
         # set_params(**get_params()) is the identity
         est.set_params(**p0)
         p1 = est.get_params(deep=False)
